@@ -102,4 +102,24 @@ example :
   decide
 
 
+/-! ### integer literals -/
+
+/-- an integer literal gets a type that holds it -/
+theorem literal_fits_its_type (n : Int) (t : IntTy) (h : litType n = some t) : t.rng.contains n = true :=
+  litType_contains n t h
+
+/-- … the narrowest one of its signedness: no narrower type of yardl holds it -/
+theorem literal_type_is_the_narrowest (n : Int) (t t' : IntTy) (h : litType n = some t) (hv : t'.valid = true)
+    (hs : t'.signed = t.signed) (hn : t'.bits < t.bits) : t'.rng.contains n = false :=
+  litType_narrowest n t t' h hv hs hn
+
+/-- … and a literal is refused exactly when no 64-bit type holds it -/
+theorem literal_refused_iff_out_of_64_bits (n : Int) :
+    litType n = none ↔ (n < -9223372036854775808 ∨ 18446744073709551615 < n) :=
+  litType_none_iff n
+
+/-- at the edges: -128 is an int8, -129 an int16 (its magnitude has 8 bits: the sign needs one more), 255 a uint8, 256 a uint16 -/
+example : litType (-128) = some ⟨true, 8⟩ ∧ litType (-129) = some ⟨true, 16⟩ ∧ litType (-200) = some ⟨true, 16⟩ ∧ litType 255 = some ⟨false, 8⟩ ∧
+    litType 256 = some ⟨false, 16⟩ ∧ litType (-2147483649) = some ⟨true, 64⟩ ∧ litType 18446744073709551616 = none := by decide
+
 end Yardl.C19
